@@ -473,7 +473,7 @@ func (e *regEnv) liveObs() string {
 		}
 		recs = append(recs, strings.Join([]string{
 			t.ID(), t.InfoHash().String(), nameTok(t.Name()), strconv.Itoa(t.Port()), b01(started(t)),
-			showTiers(v.Trackers), plusList(ws), plusList(pe), b01(v.HasInfo),
+			showTiers(v.Trackers), plusList(ws), plusList(pe), map[bool]string{false: b01(v.HasInfo), true: "INFOROT"}[v.InfoRot],
 			b01(v.StopAfterDownload), b01(v.StopAfterMetadata), b01(v.Sequential), b01(v.CompleteCmdRun),
 			fmt.Sprint(v.Downloaded), fmt.Sprint(v.Uploaded), fmt.Sprint(v.Wasted), fmt.Sprint(v.SeededFor),
 		}, ","))
